@@ -62,6 +62,8 @@ func propagation(fl *Flow, paths []Path, callee string) (n int, bad string, pos 
 			switch {
 			case use.Kind == "direct-return":
 			case use.Verdict == "returned", use.Verdict == "nil", use.Verdict == "true":
+			case use.Verdict == "nonnil" && LostAfterNonNil(fl, p, use) != "" && !strings.Contains(LostAfterNonNil(fl, p, use), "falls off"):
+				problem = LostAfterNonNil(fl, p, use)
 			case use.Verdict == "nonnil":
 				if p.Exit == ExitReturn {
 					// the return that ends the path must not be a nil error
